@@ -464,6 +464,93 @@ __CPROVER_ensures(g_set_results == 1 && (YACLIB_FINAL_SUSPEND_TRANSFER ? (RET ==
 void harness(void) { pt_reset(); g_stores = 1; Core* s; __CPROVER_assume(s != 0); final_await_suspend(s); VF_CANARY("end"); }
 '''
         job('Destroy.await_suspend.fst%d.st%d' % (fst, st), b_fs, src, 'final_await_suspend', ['SetResult', 'RESUME_T', 'LoopR'])
+    # ---- the Await / AwaitOn / AwaitSticky wrappers: their compile-time choice of the event class is TRANSLATED (vf.cxx2c.translate_selection) --------------------------------------
+    def wrappers():
+        from vf.cxx2c import translate_selection, drop_pinned
+        W = 'include/yaclib/coro/'
+        WSTUBS = '#include "vf.h"\n' + '''unsigned long N, kSharedCount, count; unsigned char kShared;      /* pack size, shared handles in the pack / iterator value type is a SharedFuture: symbolic configuration */
+enum { EV_CORE = 1, EV_STATIC_SHARED, EV_DYNAMIC_SHARED };
+unsigned g_made; unsigned char g_kind, g_sticky, g_on; unsigned long g_nodes, g_over; void* g_exec;
+void* MAKE_AWAITER(int kind, unsigned long nodes, int sticky, int on, void* e, unsigned long over)
+__CPROVER_requires(g_made == 0)
+/* C13, C06: every SharedFuture of the awaited set links the awaiter into its intrusive callback list through the `next` of the node it is given, and a node can be in one list only:
+   the event itself is one node, StaticSharedEvent<.., k> has k helper nodes, DynamicSharedEvent one per input - there must be a node for every shared handle */
+__CPROVER_requires(nodes >= SHARED_HANDLES)
+__CPROVER_assigns(g_made, g_kind, g_nodes, g_sticky, g_on, g_exec, g_over) __CPROVER_ensures(g_made == 1 && g_kind == kind && g_nodes == nodes && g_sticky == sticky && g_on == on && g_exec == e && g_over == over && RET != 0);
+'''
+
+        def event_of(name, txt, core_alias=None):
+            """(kind, nodes expression, sticky or None) of an event class expression"""
+            txt = ' '.join(txt.split())
+            m = re.match(r'^MultiAwaitAwaiter<\s*(.*)>$', txt)
+            if m:
+                txt = m.group(1).strip()
+            sticky = None
+
+            def core(t):
+                nonlocal sticky
+                mm = re.match(r'^AwaitEvent<\s*(true|false)\s*>$', t)
+                if mm:
+                    sticky = 1 if mm.group(1) == 'true' else 0
+                    return True
+                return core_alias is not None and t == core_alias
+            if core(txt):
+                return 'EV_CORE', '1', sticky
+            m = re.match(r'^StaticSharedEvent<\s*(.+?)\s*,\s*(\w+)\s*>$', txt)
+            if m and core(m.group(1)):
+                return 'EV_STATIC_SHARED', m.group(2), sticky
+            m = re.match(r'^DynamicSharedEvent<\s*(.+?)\s*>$', txt)
+            if m and core(m.group(1)):
+                return 'EV_DYNAMIC_SHARED', 'count', sticky
+            raise ExtractionBreak('%s: event class outside the vocabulary: %s' % (name, txt))
+
+        table = [('AwaitInline.pack', W + 'await_inline.hpp', r'auto\s+AwaitInline\s*\(\s*Waited\s*&\s*\.\.\.\s*waited\s*\)\s*noexcept', 'Awaiter', 0, 0, 0),
+                 ('AwaitInline.range', W + 'await_inline.hpp', r'auto\s+AwaitInline\s*\(\s*Iterator\s+begin\s*,\s*std::size_t\s+count\s*\)\s*noexcept', 'Awaiter', 1, 0, 0),
+                 ('AwaitSticky.pack', W + 'await_sticky.hpp', r'auto\s+AwaitSticky\s*\(\s*Waited\s*&\s*\.\.\.\s*waited\s*\)\s*noexcept', 'Awaiter', 0, 1, 0),
+                 ('AwaitSticky.range', W + 'await_sticky.hpp', r'auto\s+AwaitSticky\s*\(\s*Iterator\s+begin\s*,\s*std::size_t\s+count\s*\)\s*noexcept', 'Awaiter', 1, 1, 0),
+                 ('AwaitOn.pack', W + 'await_on.hpp', r'auto\s+AwaitOn\s*\(\s*IExecutor\s*&\s*e\s*,\s*Waited\s*&\s*\.\.\.\s*waited\s*\)\s*noexcept', 'Event', 0, 0, 1),
+                 ('AwaitOn.range', W + 'await_on.hpp', r'auto\s+AwaitOn\s*\(\s*IExecutor\s*&\s*e\s*,\s*Iterator\s+begin\s*,\s*std::size_t\s+count\s*\)\s*noexcept', 'Event', 1, 0, 1)]
+        for nm, f, sig, alias, rng, sticky, on in table:
+            try:
+                b = find_body(repo, f, sig, nm)
+                t = b.text
+                core_alias = None
+                if on:
+                    t, k = re.subn(r'using\s+CoreEvent\s*=\s*AwaitOnEvent<\s*false\s*>\s*;', '', t)
+                    if k != 1:
+                        raise ExtractionBreak('%s: `using CoreEvent = AwaitOnEvent<false>;` not found exactly once' % nm)
+                    core_alias = 'CoreEvent'
+                classes = ['MultiAwaitAwaiter', 'CoreEvent', 'StaticSharedEvent', 'DynamicSharedEvent']
+                t, cond, a, bb = translate_selection(nm, t, alias, [], ['kSharedCount', 'kShared'], classes)
+                full = lambda x: x[0] + ('<' + x[1] + '>' if x[1] else '')
+                (ka, na, sa), (kb, nb, sb) = event_of(nm, full(a), core_alias), event_of(nm, full(bb), core_alias)
+                if not on and (sa is None or sb is None or sa != sb):
+                    raise ExtractionBreak('%s: cannot read the Sticky argument of the event classes' % nm)
+                t = drop_pinned(nm, t, ['using namespace detail;'] + (['static constexpr auto kShared = std::is_same_v<typename Value::Handle, SharedHandle>;'] if rng else
+                                                                     ['static constexpr auto kSharedCount = kCount<SharedHandle, typename Waited::Handle...>;']))
+                pre = [(r'YACLIB_ASSERT\(\s*\.\.\.\s*&&\s*waited\.Valid\(\)\s*\)\s*;', '', 0),       # a fold over the pack: every awaited future is valid (a precondition of the wrapper)
+                       (r'return\s+Awaiter\{\s*waited\.GetHandle\(\)\s*\.\.\.\s*\}\s*;', 'return MAKE_AWAITER(EV_KIND, EV_NODES, EV_STICKY, 0, 0, N);', 0),
+                       (r'return\s+Awaiter\{\s*begin\s*,\s*count\s*\}\s*;', 'return MAKE_AWAITER(EV_KIND, EV_NODES, EV_STICKY, 0, 0, count);', 0),
+                       (r'return\s+MultiAwaitOnAwaiter<Event>\{\s*e\s*,\s*waited\.GetHandle\(\)\s*\.\.\.\s*\}\s*;', 'return MAKE_AWAITER(EV_KIND, EV_NODES, 0, 1, e, N);', 0),
+                       (r'return\s+MultiAwaitOnAwaiter<Event>\{\s*e\s*,\s*begin\s*,\s*count\s*\}\s*;', 'return MAKE_AWAITER(EV_KIND, EV_NODES, 0, 1, e, count);', 0)]
+                c = Rewriter(nm, pre=pre, refs=[]).rewrite(t)
+                if c.count('MAKE_AWAITER(') != 1:
+                    raise ExtractionBreak('%s: the return statement is not of a translated form' % nm)
+                src = '#define SHARED_HANDLES %s\n' % ('(kShared ? count : 0)' if rng else 'kSharedCount') + WSTUBS + \
+                    '#define EV_KIND ((%s) ? %s : %s)     /* translated from `using %s = std::conditional_t<...>` */\n#define EV_NODES ((%s) ? (%s) : (%s))\n#define EV_STICKY %d\n' % (cond, ka, kb, alias, cond, na, nb, sa if not on else 0) + \
+                    '''void* F(void* e, unsigned long begin)
+__CPROVER_requires(g_made == 0 && N >= 2 && N < (1UL << 32) && kSharedCount <= N && count >= 2 && count < (1UL << 32) && kShared <= 1)
+__CPROVER_assigns(g_made, g_kind, g_nodes, g_sticky, g_on, g_exec, g_over)
+/* one awaiter over exactly the given futures, of the flavour the function names (sticky / on executor e), with an event that has a callback node for every shared handle */
+__CPROVER_ensures(g_made == 1 && g_over == %s && g_sticky == %d && g_on == %d && (%d ? g_exec == e : 1) && RET != 0)
+{''' % ('count' if rng else 'N', sticky, on, on) + c + '''}
+void harness(void) { g_made = 0; N = nondet_ulong(); kSharedCount = nondet_ulong(); count = nondet_ulong(); kShared = nondet_uchar() & 1; void* e; F(e, 0);
+  if (SHARED_HANDLES) VF_CANARY("some shared handles"); else VF_CANARY("no shared handle"); }
+'''
+                job('wrapper.' + nm, b, src, 'F', ['MAKE_AWAITER'], canaries=2, expect=[r'postcondition', r'precondition'])
+            except ExtractionBreak as e:
+                ctx.breaks.append(str(e))
+    wrappers()
     return out
 
 
